@@ -106,6 +106,31 @@ def run(chk):
             chk.case(('obj',) + tuple(rq[1]))
             if mi != im:
                 chk.mismatch('to_transposed', rq[1], f'impl={im} model={mi}')
+    # results are the caller's own: editing a returned pitch (folding a melody back into range) must not change what
+    # the next transposition of an equal pitch returns, nor the argument
+    nh = 0
+    for _ in range(300 if not (chk.tier == 'thorough' or b.drift or not b.proof_ok) else 3000):
+        r_ = chk.rng
+        l, a, o = r_.randrange(7), r_.randint(-2, 2), r_.randint(1, 7)
+        name = 'CDEFGAB'[l] + ('+' * a if a >= 0 else '-' * (-a))
+        n, d = r_.choice(names), r_.choice(['up', 'down'])
+        chk.case(('own-result', name, o, n, d), kind='own-result')
+        try:
+            src = kp.AgnosticPitch(name, o)
+            q1 = kp.AgnosticPitch.to_transposed(src, by_name[n], d)
+            first = (q1.name, q1.octave)
+            q1.octave = q1.octave - 1
+            if r_.random() < 0.5:
+                q1.name = 'C'
+            q2 = kp.AgnosticPitch.to_transposed(kp.AgnosticPitch(name, o), by_name[n], d)
+            second = (q2.name, q2.octave)
+            arg = (src.name, src.octave)
+        except Exception:
+            continue
+        if (second != first or q2 is q1 or arg != (name, o)) and nh < 10:
+            nh += 1
+            chk.violation('exact', f'to_transposed({name},{o}) by {n} {d} returned {first}; after the caller edited that result the same call returns '
+                          f'{second} (same object: {q2 is q1}; argument now {arg})', {'pitch': f'{name}|{o}', 'interval': n, 'direction': d, 'history': 'edit-result-then-repeat'})
     chk.traces_validated = chk.evaluations
     chk.disagreements_checked = len(chk.broken)
 
